@@ -255,7 +255,7 @@ fn handle(kind: &str, f: &[String]) -> String {
                 Err(k) => format!("ERR\t{k}"),
             }
         }
-        ("evalattr", 3) => {
+        ("evalattr", 3) | ("rngattr", 3) => {
             let (r, w) = verif::eval_attr(
                 &unhex_s(&f[0]),
                 &parse_attrs(&f[1]),
